@@ -229,3 +229,71 @@ func (w *WaitGroup) Done() { w.Add(-1) }
 func (w *WaitGroup) Wait() {
 	vsched.Op("wg.Wait", w.obj(), rd|acq, func() bool { return w.n == 0 })
 }
+
+// Cond mirrors sync.Cond on top of the controlled scheduler: Wait releases L, parks until a later
+// Signal/Broadcast and re-acquires L.
+type Cond struct {
+	L       Locker
+	ref     vsched.Ref
+	waiters []*condWaiter
+}
+
+type condWaiter struct{ woken bool }
+
+func NewCond(l Locker) *Cond { return &Cond{L: l} }
+
+func (c *Cond) obj() *vsched.Obj { return c.ref.Get("cond", func() { c.waiters = nil }) }
+
+func (c *Cond) Wait() {
+	o := c.obj()
+	w := &condWaiter{}
+	c.waiters = append(c.waiters, w)
+	c.L.Unlock()
+	vsched.Op("cond.Wait", o, rd|wr|acq, func() bool { return w.woken })
+	c.L.Lock()
+}
+
+func (c *Cond) Signal() {
+	vsched.Op("cond.Signal", c.obj(), wr|rel, nil)
+	if len(c.waiters) > 0 {
+		c.waiters[0].woken = true
+		c.waiters = c.waiters[1:]
+		vsched.Mutated()
+	}
+}
+
+func (c *Cond) Broadcast() {
+	vsched.Op("cond.Broadcast", c.obj(), wr|rel, nil)
+	for _, w := range c.waiters {
+		w.woken = true
+	}
+	if len(c.waiters) > 0 {
+		vsched.Mutated()
+	}
+	c.waiters = nil
+}
+
+// OnceFunc / OnceValue / OnceValues mirror the go1.21 helpers.
+func OnceFunc(f func()) func() {
+	var once Once
+	return func() { once.Do(f) }
+}
+
+func OnceValue[T any](f func() T) func() T {
+	var once Once
+	var v T
+	return func() T {
+		once.Do(func() { v = f() })
+		return v
+	}
+}
+
+func OnceValues[T1, T2 any](f func() (T1, T2)) func() (T1, T2) {
+	var once Once
+	var a T1
+	var b T2
+	return func() (T1, T2) {
+		once.Do(func() { a, b = f() })
+		return a, b
+	}
+}
